@@ -634,8 +634,8 @@ theorem zip_program_refines_sched_partial (ops : List ZOp) (it : Iter) (d1 d2 : 
 /-- **zip over one and the same deque** (`d1 == d2`): `next` yields each element paired with itself; `replace`
 and `remove` refine the self-zip cursor (one sequence threaded through both halves: the second value stays /
 the yielded element and its successor go, and on the last element the second out-value is not written);
-`add` keeps invariant and ledger at every cursor position.  What `add` does *not* guarantee under a refusal
-is `C08Deque.zip_alias_add_swallows_refusal`. -/
+`add` keeps invariant and ledger at every cursor position; that it is all-or-nothing on the content (repair
+D13) is `C08Deque.zip_alias_add_all_or_nothing`. -/
 theorem zip_same_deque (it : Iter) (d : Deque) (x y : Nat) (m : Mem) (hi : d.Inv) :
     (it.index < d.size → (zipNext it d d m).2.1 = (d.abs[it.index]?).map fun v => (v, v)) ∧
     ((zipReplaceSelf it d x y m).1 = (DequeSpec.zipReplaceSelf d.abs it.cur x y).1 ∧
